@@ -642,7 +642,10 @@ Fixpoint server_receive (fuel : nat) (g : cfg) (s : state) (sv slot : N) (ord : 
         if faf g then
           let '(uid, s) := fresh s in
           (s, SRSome {| ac_uid := uid; ac_sv := sv; ac_slot := slot; ac_idx := None; ac_msg := m; ac_seq := 0; ac_loans := 0 |})
-        else server_receive f g s sv slot ord      (* the chunk is neither handed out nor released *)
+        else (* the client is gone: release_offset hands the request back (fix: 4ac3642) *)
+          server_receive f g (upd_conn s cl sv (fun k =>
+            if view_on (k_svw k) then k_with_req k (k_rsub k) (filter (fun y => negb (N.eqb (q_id y) (q_id m))) (k_rbor k)) (k_rcomp k ++ [m]) else k))
+            sv slot ord
       end
     end
   end.
@@ -662,8 +665,8 @@ Definition bump_act_seq (s : state) (uid : N) : state :=
                            then {| ac_uid := ac_uid a; ac_sv := ac_sv a; ac_slot := ac_slot a; ac_idx := ac_idx a; ac_msg := ac_msg a;
                                    ac_seq := ac_seq a + 1; ac_loans := ac_loans a |} else a) (s_acts s)).
 
-(* ActiveRequest::loan_chunk: increment_loan_counter FIRST, then allocate (the counter is not
-   rolled back when allocate fails) *)
+(* ActiveRequest::loan_chunk: increment_loan_counter first, then allocate; the counter is given
+   back when allocate fails (fix: 99179a3) *)
 Definition act_loan (g : cfg) (s : state) (a : actrec) (v : N) : state * sum err rloanrec :=
   if N.leb (MLR g) (ac_loans a) then (s, inl EMaxLoans) else
   let s := set_act_loans s (ac_uid a) (fun n => n + 1) in
@@ -672,8 +675,8 @@ Definition act_loan (g : cfg) (s : state) (a : actrec) (v : N) : state * sum err
   match get_server s sv with
   | None => (s, inl EOom)
   | Some srv =>
-    if N.leb (sv_max_borrow g) (sv_sloans srv) then (s, inl EMaxLoans) else
-    if N.leb (nresp g) (rc_used (sv_rc srv)) then (s, inl EOom) else
+    if N.leb (sv_max_borrow g) (sv_sloans srv) then (set_act_loans s (ac_uid a) (fun n => n - 1), inl EMaxLoans) else
+    if N.leb (nresp g) (rc_used (sv_rc srv)) then (set_act_loans s (ac_uid a) (fun n => n - 1), inl EOom) else
     let '(id, s) := fresh s in
     let m := {| p_id := id; p_sv := sv; p_rid := q_rid (ac_msg a); p_val := v; p_ocl := q_cl (ac_msg a); p_stamp := 0 |} in
     let s := upd_server s sv (fun c => mk_server (sv_inst c) (sv_obj c) (sv_sloans c + 1) (rc_inc (sv_rc c) id) (sv_conns c)) in
@@ -861,6 +864,21 @@ Definition digest_p (s : state) : list (N * bool * bool) :=
   map (fun p => (q_hid (pn_msg p), pend_connected s p, pend_has_response s p)) (s_pends s).
 Definition digest_a (s : state) : list (N * N * bool * bool) :=
   map (fun a => (q_hid (ac_msg a), ac_slot a, act_connected s a, act_has_hint s a)) (s_acts s).
+
+(* classification of a property violation (used by the driver only to name the class): the
+   active request of request number `hid` currently addresses a connection of ANOTHER client;
+   the last response handed out came from an active request of another client *)
+Definition act_foreign (s : state) (hid : N) : bool :=
+  existsb (fun a => N.eqb (q_hid (ac_msg a)) hid &&
+                    match act_conn s (ac_sv a) (ac_idx a) with
+                    | Some k => negb (N.eqb (k_cl k) (q_cl (ac_msg a)))
+                    | None => false
+                    end) (s_acts s).
+Definition last_recv_foreign (s : state) : bool :=
+  match rev (s_rlog s) with
+  | (p, m) :: _ => negb (N.eqb (pn_cl p) (p_ocl m))
+  | [] => false
+  end.
 
 (* peers whose polling order the driver has to choose *)
 Definition client_peers (s : state) (k : N) : list N :=
